@@ -192,6 +192,14 @@ def soil_spec(rng, zmax, p_custom=0.3, p_dz=0.25, p_opts=0.35, low_ksat=False, p
             kw["evap_z_max"] = float(pick(rng, [0.2, 0.3, 0.45, 0.6]))
         if chance(rng, 0.15):
             kw["z_top"] = float(pick(rng, [0.1, 0.2, 0.3]))
+        # "default program properties" of the soil that a user may still set
+        for name, vals, p_ in (("kex", [0.9, 1.1, 1.25], 0.1), ("fwcc", [30, 50, 70], 0.1), ("f_evap", [2, 4, 7], 0.1),
+                               ("f_wrel_exp", [0.2, 0.4, 0.6], 0.08), ("fshape_cr", [8, 16, 24], 0.1),
+                               ("evap_z_min", [0.1, 0.15, 0.2], 0.1), ("evap_z_surf", [0.03, 0.04, 0.06], 0.08)):
+            if chance(rng, p_):
+                kw[name] = pick(rng, vals)
+        if "evap_z_min" in kw and kw.get("evap_z_max", 0.3) < kw["evap_z_min"]:
+            kw["evap_z_max"] = max(0.3, kw["evap_z_min"])
     return s
 
 
@@ -267,21 +275,29 @@ def iwc_spec(rng, s, kinds=("FC", "WP", "SAT", "Pct", "Num"), wet=False, dry=Fal
         kind = pick(rng, ["SAT", "SAT", "FC"])
     if dry:
         kind = pick(rng, ["WP", "WP", "Pct"])
+    def out(wc_type, vals):
+        ls, vs = list(layers), list(vals)
+        if nl > 1 and chance(rng, 0.25):
+            # (layer, value) pairs may be listed in any order
+            order = [int(x) for x in rng.permutation(nl)]
+            ls, vs = [ls[i] for i in order], [vs[i] for i in order]
+        return {"wc_type": wc_type, "method": "Layer", "depth_layer": ls, "value": vs}
+
     if kind in ("FC", "WP", "SAT"):
         vals = [kind] * nl
         if nl > 1 and chance(rng, 0.3):
             vals = [pick(rng, ["FC", "WP", "SAT"]) for _ in layers]
-        return {"wc_type": "Prop", "method": "Layer", "depth_layer": layers, "value": vals}
+        return out("Prop", vals)
     if kind == "Pct":
         v = [float(pick(rng, [0, 10, 30, 50, 80, 100])) for _ in layers]
         if dry:
-            v = [float(pick(rng, [0, 5, 15])) for _ in layers]
-        return {"wc_type": "Pct", "method": "Layer", "depth_layer": layers, "value": v}
+            v = [float(pick(rng, [0, 5, 15, 40])) for _ in layers]
+        return out("Pct", v)
     hyd = layer_hyd(s)
     if any(h is None for h in hyd):
-        return {"wc_type": "Prop", "method": "Layer", "depth_layer": layers, "value": ["FC"] * nl}
+        return out("Prop", ["FC"] * nl)
     v = [round(h[0] + float(rng.random()) * (h[2] - h[0]), 3) for h in hyd]
-    return {"wc_type": "Num", "method": "Layer", "depth_layer": layers, "value": v}
+    return out("Num", v)
 
 
 # ------------------------------------------------------------------------------------
@@ -318,7 +334,7 @@ def irr_spec(rng, start, end, methods=(0, 1, 2, 3, 4, 5), limits=0.35, planting=
     elif m == 5:
         kw["depth"] = float(pick(rng, [0, 2, 8, 30]))
     if chance(rng, 0.5):
-        kw["AppEff"] = float(pick(rng, [50, 70, 90, 100]))
+        kw["AppEff"] = float(pick(rng, [50, 62.5, 70, 87.5, 90, 100]))
     if chance(rng, limits):
         kw["MaxIrr"] = float(pick(rng, [0, 5, 15, 40]))
     if chance(rng, limits):
@@ -413,7 +429,9 @@ def window(rng, crop, seasons=(1, 3), pre=(0, 0, 5, 40), year_range=(1985, 2015)
     # A season that may span New Year is only scheduled by the model when its harvest year
     # is inside the window; a window that ends in the planting year of such a crop contains
     # no schedulable season (defect D12, exercised by C16's edge class only).
-    if end.year == p0.year and (p0 + dt.timedelta(days=L + 65)).year > p0.year:
+    thermal = common.crop_catalogue()[crop["name"]]["CalendarType"] == 2
+    margin = 230 if thermal else 65      # a thermal crop's season length depends on the weather
+    if end.year == p0.year and (p0 + dt.timedelta(days=L + margin)).year > p0.year:
         end = dt.date(p0.year + 1, 1, int(rng.integers(2, 29)))
     if file_span is not None and end > file_span[1]:
         end = file_span[1]
